@@ -862,3 +862,40 @@ func TestRoundBoundaries(t *testing.T) {
 	}
 	P.SetExtra("round_boundary_cases", n)
 }
+
+// TestEveryCountEveryEntry: containers of EVERY size 1..41 (quick) / 1..80 and around 128 and 256 (thorough) in which
+// exactly one entry - each entry in turn, so every stored position whatever order the writer emits - is a token
+// re-signed with another key under the CID of its new bytes: consistent with its label, only signature verification
+// can tell. Reading must fail for every size and every position, through every format and reader variant (the main
+// generator draws sizes 0..6 and a few padded ones, and corrupts one of the first six entries).
+func TestEveryCountEveryEntry(t *testing.T) {
+	var sizes []int
+	for n := 1; n <= 41; n++ {
+		sizes = append(sizes, n)
+	}
+	if h.Thorough() {
+		for n := 42; n <= 80; n++ {
+			sizes = append(sizes, n)
+		}
+		sizes = append(sizes, 127, 128, 129, 255, 256, 257)
+	}
+	cases := 0
+	for _, n := range sizes {
+		for e := 0; e < n; e++ {
+			if n > 100 && e%7 != 0 && e < n-20 {
+				continue
+			}
+			for fi, f := range ctr.Formats {
+				if !h.Thorough() && (n+e+fi)%2 == 1 {
+					continue // quick: two of the four formats per (size, entry), alternating
+				}
+				v := n + e + fi
+				prop.One(t, Case{Pad: n, Order: []int{e % 3, 1}, Format: f, WStream: v%2 == 1, RStream: v%4 >= 2, RKind: v % 6, Corr: &Corr{Kind: "wrong-key", Entry: e}})
+				cases++
+			}
+		}
+		// and the honest container of that size
+		prop.One(t, Case{Pad: n, Order: []int{0}, Format: ctr.Formats[n%len(ctr.Formats)], RStream: n%2 == 0, RKind: n % 6})
+	}
+	P.SetExtra("every_count_every_entry_cases", cases)
+}
